@@ -16,7 +16,7 @@ pub struct FnDef {
     pub text: &'static str,
 }
 
-pub const LIB: [FnDef; 27] = [
+pub const LIB: [FnDef; 29] = [
     FnDef { name: "f0", text: "void f0() { c = c + 1; }" },
     FnDef { name: "f1", text: "char f1() { return a + 1; }" },
     FnDef { name: "f2", text: "char f2(char v) { return v + b; }" },
@@ -44,6 +44,9 @@ pub const LIB: [FnDef; 27] = [
     FnDef { name: "h9", text: "void h9() { X++; f0(); }" },
     FnDef { name: "h10", text: "char h10() { return b++; }" },
     FnDef { name: "h11", text: "char h11(char *q) { return *q; }" },
+    // signed conditions (branches on N) inside a body that is copied
+    FnDef { name: "h12", text: "void h12() { signed char k; k = a; if (k >= 0) c = 1; else c = 2; }" },
+    FnDef { name: "h13", text: "char h13(signed char k) { if (k < 0) return 1; if (k < 3) return 2; return 3; }" },
 ];
 
 /// functions a function calls (library order = definition order: callees first)
@@ -59,7 +62,7 @@ fn deps(name: &str) -> &'static [&'static str] {
     }
 }
 
-pub const BODIES: [(&str, &[&str]); 103] = [
+pub const BODIES: [(&str, &[&str]); 108] = [
     ("f0();", &["f0"]),
     ("f0(); f0();", &["f0"]),
     ("f0(); f0(); f0();", &["f0"]),
@@ -163,10 +166,18 @@ pub const BODIES: [(&str, &[&str]); 103] = [
     ("r = h11(tab); c = Y;", &["h11"]),
     ("r = h10() + 1; if (r) c = 5;", &["h10"]),
     ("if (h10()) c = 5; else c = 6;", &["h10"]),
+    ("h12(); r = 2; if (X) Y = 3;", &["h12"]),
+    ("if (b) h12(); r = c; h12();", &["h12"]),
+    ("r = h13(a); if (r == 2) c = 4;", &["h13"]),
+    ("if (X) r = 1; r = r + h13(b);", &["h13"]),
+    ("h12(); r = h13(c);", &["h12", "h13"]),
 ];
 
 /// extra program shapes for the call-graph property: interrupts, unused functions, prototypes
-pub const C12_EXTRA: [&str; 8] = [
+pub const C12_EXTRA: [&str; 11] = [
+    "void nmi();\nvoid f0() { c = c + 1; }\nvoid interrupt nmi() { f0(); }\nvoid main()\n{\n  r = 1;\n}\n",
+    "void interrupt nmi();\nvoid f0() { c = c + 1; }\nvoid nmi() { f0(); }\nvoid main()\n{\n  r = 1;\n}\n",
+    "void f0() { c = c + 1; }\nvoid dead() { f0(); }\nvoid main()\n{\n  f0();\n}\n",
     "void f0() { c = c + 1; }\nvoid unused() { c = 0; }\nvoid main()\n{\n  f0();\n}\n",
     "void f0() { c = c + 1; }\nvoid tick() { f0(); }\nvoid unused() { c = 0; }\nvoid interrupt nmi() { tick(); }\nvoid main()\n{\n  r = 1;\n}\n",
     "void f0() { c = c + 1; }\nvoid interrupt nmi() { f0(); }\nvoid interrupt irq() { c = 2; }\nvoid main()\n{\n  r = 1;\n}\n",
@@ -358,7 +369,7 @@ impl Check for C14 {
         "exploration"
     }
     fn rule(&self) -> String {
-        "Programs = 103 call-site bodies (statement, operand of +, condition, argument of another call, inside for/while/do loops, two and three call sites, nested calls) over a library of 27 functions (void/char-returning, 0-2 parameters, pointer parameter, locals, loops, early returns from if and switch, comparisons against constants, constant returns, inline assembly with a size hint, functions calling further functions; call sites placed after statements that leave known constants or flag knowledge behind). For every program every non-empty subset of its functions is marked inline; the variant and the baseline (no inline) are compiled at -O1 and -O0 and co-executed on the emulator from every enumerated input; halting status, all RAM, X and Y must be identical. A variant the compiler rejects is counted, not judged. Non-trivial = at least one inline variant executed; distinct = distinct body.".into()
+        "Programs = 108 call-site bodies (statement, operand of +, condition, argument of another call, inside for/while/do loops, two and three call sites, nested calls) over a library of 29 functions (void/char-returning, 0-2 parameters, pointer parameter, locals, loops, early returns from if and switch, comparisons against constants, constant returns, inline assembly with a size hint, functions calling further functions; call sites placed after statements that leave known constants or flag knowledge behind). For every program every non-empty subset of its functions is marked inline; the variant and the baseline (no inline) are compiled at -O1 and -O0 and co-executed on the emulator from every enumerated input; halting status, all RAM, X and Y must be identical. A variant the compiler rejects is counted, not judged. Non-trivial = at least one inline variant executed; distinct = distinct body.".into()
     }
     fn assumptions(&self) -> Vec<String> {
         vec!["purely differential: no reference model".into(), "the harness layout gives every local/parameter its own address, identical with and without inline".into()]
@@ -606,7 +617,7 @@ impl Check for C12 {
         "exploration"
     }
     fn rule(&self) -> String {
-        "Programs = the 103 call-site bodies of family F3 with every subset of their functions marked inline, a prototype-first variant, plus programs with unused functions, interrupt handlers (with and without callees), call chains three deep, nested inline wrappers and calls inside arguments and conditions; at -O0 and -O1. Oracle, four independent views: (a) every call written in the source of f (taken from the harness's own parse) is a direct edge of functions_call_tree[f]; (b) every 'JSR t' in write_function(f) goes to a function in the reflexive-transitive closure of the tree from f; (c) functions_actually_in_use equals reachability from main and all interrupt functions over the published tree; (d) every function the source reaches from main / interrupt handlers is in the set. Non-trivial = accepted; distinct outcomes = distinct in-use sets.".into()
+        "Programs = the 108 call-site bodies of family F3 with every subset of their functions marked inline, a prototype-first variant, plus programs with unused functions, interrupt handlers (with and without callees), call chains three deep, nested inline wrappers and calls inside arguments and conditions; at -O0 and -O1. Oracle, four independent views: (a) every call written in the source of f (taken from the harness's own parse) is a direct edge of functions_call_tree[f]; (b) every 'JSR t' in write_function(f) goes to a function in the reflexive-transitive closure of the tree from f; (c) functions_actually_in_use equals reachability from main and all interrupt functions over the published tree; (d) every function the source reaches from main / interrupt handlers is in the set. Non-trivial = accepted; distinct outcomes = distinct in-use sets.".into()
     }
     fn assumptions(&self) -> Vec<String> {
         vec!["direct recursion and function pointers are outside the family".into()]
